@@ -50,7 +50,7 @@ type Field struct {
 }
 
 type Tok struct {
-	Kind  string `json:"kind"` // lit | u64 | str | int | bool | strlist | intlist | members
+	Kind  string `json:"kind"` // lit | u64 | str | int | bool | strlist | intlist | members | hexstr
 	Lit   string `json:"lit,omitempty"`
 	Field string `json:"field,omitempty"`
 }
@@ -63,6 +63,7 @@ type Claim struct {
 	Fields []Field  `json:"fields"`
 	Toks   []Tok    `json:"tokens"`
 	Read   []string `json:"read_by_handlers"`
+	Err    string   `json:"error,omitempty"` // the ClaimHash of this type could not be extracted (fields/classes/reads still are)
 }
 
 type Table struct {
@@ -88,6 +89,9 @@ func (c *Claim) Field(name string) *Field {
 }
 
 func (c *Claim) Hashed(name string) bool {
+	if c.Err != "" {
+		return true // unknown: assume hashed
+	}
 	for _, t := range c.Toks {
 		if t.Field == name {
 			return true
@@ -263,7 +267,8 @@ func isPkgCall(e ast.Expr, pkg, fn string) (*ast.CallExpr, bool) {
 
 // ---------------------------------------------------------------------------------------
 
-// Extract reads <repo>/x/crosschain/{types,keeper}.
+// Extract reads <repo>/x/crosschain/{types,keeper}.  If only some ClaimHash method has an unexpected shape the
+// table is still returned (that claim has Err set and no tokens) together with the error.
 func Extract(repo string) (*Table, error) {
 	tp, err := loadDir(filepath.Join(repo, "x", "crosschain", "types"))
 	if err != nil {
@@ -334,6 +339,7 @@ func Extract(repo string) (*Table, error) {
 	}
 
 	tab := &Table{}
+	var firstErr error
 	for _, ct := range ClaimTypes {
 		c := &Claim{Go: ct.Go, Short: ct.Short}
 		st := tp.structs[ct.Go]
@@ -374,7 +380,12 @@ func Extract(repo string) (*Table, error) {
 			}
 		}
 		if err := extractHash(tp, msgs, c); err != nil {
-			return nil, err
+			// keep going: the harness can still run its monitors on this type; the translator as a whole fails
+			c.Err = err.Error()
+			c.Toks, c.Args = nil, nil
+			if firstErr == nil {
+				firstErr = err
+			}
 		}
 		if err := extractValidation(tp, c); err != nil {
 			return nil, err
@@ -384,7 +395,7 @@ func Extract(repo string) (*Table, error) {
 		}
 		tab.Claims = append(tab.Claims, c)
 	}
-	return tab, nil
+	return tab, firstErr
 }
 
 // extractHash: ClaimHash must be
@@ -467,7 +478,7 @@ func extractHash(tp *pkgInfo, msgs *ast.File, c *Claim) error {
 		switch format[i] {
 		case '%':
 			cur += "%"
-		case 'd', 's', 'v', 't':
+		case 'd', 's', 'v', 't', 'x':
 			if cur != "" {
 				pieces = append(pieces, cur)
 				cur = ""
@@ -519,6 +530,8 @@ func extractHash(tp *pkgInfo, msgs *ast.File, c *Claim) error {
 			kind = "u64"
 		case fld.Kind == "str" && (v == 's' || v == 'v'):
 			kind = "str"
+		case fld.Kind == "str" && v == 'x':
+			kind = "hexstr" // two lowercase hex digits per byte
 		case fld.Kind == "bool" && (v == 't' || v == 'v'):
 			kind = "bool"
 		case fld.Kind == "int" && (v == 's' || v == 'v'):
@@ -755,7 +768,7 @@ func extractReads(tp, kp *pkgInfo, c *Claim) error {
 	}
 	fieldsOfMethod = func(name string, depth int) {
 		switch name {
-		case "ClaimHash", "ValidateBasic", "GetType", "GetClaimer", "GetSigners", "String", "Reset", "ProtoMessage":
+		case "ClaimHash", "ValidateBasic", "GetType", "String", "Reset", "ProtoMessage":
 			return
 		}
 		if md := tp.methods[c.Go][name]; md != nil && md.Body != nil {
@@ -920,6 +933,8 @@ func coqTok(t Tok) string {
 		return "IntList " + coqStr(t.Field)
 	case "members":
 		return "Members " + coqStr(t.Field)
+	case "hexstr":
+		return "HexStr " + coqStr(t.Field)
 	}
 	panic("tok " + t.Kind)
 }
